@@ -201,12 +201,12 @@ theorem C08_nonstring_name_is_err (fuel : Nat) (env : Env) (name : Expr) (args :
   | arr xs => simp [renderN, hn]
   | obj kvs => simp [renderN, hn]
 
-/-- what "missing" means: the store has no entry for the name, or the entry is a stored parse
-error; a well-formed stored partial is found -/
-theorem C08_lookup (env : Env) (name : Str) :
-    (env.partials.find? (·.1 == name) = none → lookupPartial env name = .err) ∧
-    (∀ n, env.partials.find? (·.1 == name) = some (n, none) → lookupPartial env name = .err) ∧
-    (∀ n t, env.partials.find? (·.1 == name) = some (n, some t) → lookupPartial env name = .ok t) := by
-  refine ⟨fun h => ?_, fun n h => ?_, fun n t h => ?_⟩ <;> simp [lookupPartial, h]
+/-- what "missing" means for a store given as a table: no entry for the name, or an entry that is
+a stored parse error; a well-formed stored partial is found -/
+theorem C08_lookup (ps : List (Str × Option Tmpl)) (name : Str) :
+    (ps.find? (·.1 == name) = none → lookupPartial (Env.ofList ps) name = .err) ∧
+    (∀ n, ps.find? (·.1 == name) = some (n, none) → lookupPartial (Env.ofList ps) name = .err) ∧
+    (∀ n t, ps.find? (·.1 == name) = some (n, some t) → lookupPartial (Env.ofList ps) name = .ok t) := by
+  refine ⟨fun h => ?_, fun n h => ?_, fun n t h => ?_⟩ <;> simp [lookupPartial, Env.ofList, h]
 
 end Liquid.C08
